@@ -131,6 +131,7 @@ impl<'i> Parser<'i> {
     //    && wf_ev  (event discipline: what the tree builder relies on; C01)
     spec fn wf_tok(&self) -> bool {
         &&& self.pos <= self.tokens@.len()
+        &&& self.tokens@.len() + 8 <= usize::MAX   // look-ahead index arithmetic; a Vec of 40-byte tokens cannot be this long
         &&& forall|i: int| 0 <= i < self.tokens@.len() ==> is_tok(#[trigger] self.tokens@[i].kind)
         &&& self.depth <= MAX_DEPTH
         &&& self.fuel <= FUEL
